@@ -399,10 +399,12 @@ class DisjunctionMaxMatcher(UnionMatcher):
             return max(a.score(), b.score())
 
     def max_quality(self):
-        return max(self.a.max_quality(), self.b.max_quality())
+        return max([m.max_quality() for m in (self.a, self.b)
+                    if m.is_active()] or [0.0])
 
     def block_quality(self):
-        return max(self.a.block_quality(), self.b.block_quality())
+        return max([m.block_quality() for m in (self.a, self.b)
+                    if m.is_active()] or [0.0])
 
     def skip_to_quality(self, minquality):
         self._id = None
@@ -570,6 +572,8 @@ class IntersectionMatcher(AdditiveBiMatcher):
                 # We want to always leave in a state where the matchers are at
                 # the same document, so call _find_next() to sync them
                 self._find_next()
+                if not a.is_active() or not b.is_active():
+                    break
 
             # Get the block qualities at the new matcher positions
             aq = a.block_quality()
